@@ -243,6 +243,9 @@ func ruleC20_1(c *Ctx) {
 			if !c.okCallAt(mp, r.Block()) {
 				continue
 			}
+			if afterExit(r.Block()) {
+				continue // the statement after os.Exit(1): never reached
+			}
 			// every way into the success return either passed os.Exit (never returns) or knows all three lists empty
 			for _, pb := range r.Block().Preds {
 				if afterExit(pb) {
@@ -862,6 +865,23 @@ func (c *Ctx) c20LoadSites(f *ssa.Function) []c20LoadSite {
 	return sites
 }
 
+// c20Op: one of the three operations of sign, done in cmd.sign itself or in an unexported helper it calls.
+type c20Op struct {
+	site  ssa.CallInstruction // the call in cmd.sign (the operation itself, or the call of the helper)
+	inner ssa.CallInstruction // the operation
+	g     *ssa.Function       // frame of the operation
+}
+
+// outer: the value as seen from cmd.sign: a parameter of the helper frame is replaced by the argument of the call.
+func (o c20Op) outer(v ssa.Value) string {
+	if o.site != o.inner {
+		if p, ok := resolve(v, nil).(*ssa.Parameter); ok && p.Parent() == o.g {
+			return org(o.site.Common().Args[paramIndex(p)])
+		}
+	}
+	return org(v)
+}
+
 func ruleC20_5(c *Ctx) {
 	const R = "R-C20-5"
 	f := c.lookup("cmd.sign")
@@ -870,20 +890,53 @@ func ruleC20_5(c *Ctx) {
 		return
 	}
 	fn := fname(f)
-	var vs, sg, dp ssa.CallInstruction
-	for _, k := range allCalls(f) {
-		switch calleeName(k) {
-		case "iface:in_toto.Metadata.VerifySignature":
-			vs = k
-		case "iface:in_toto.Metadata.Sign":
-			sg = k
-		case "iface:in_toto.Metadata.Dump":
-			dp = k
+	var vs, sg, dp *c20Op
+	scan := func(g *ssa.Function, site ssa.CallInstruction) {
+		for _, k := range allCalls(g) {
+			s := site
+			if s == nil {
+				s = k
+			}
+			switch calleeName(k) {
+			case "iface:in_toto.Metadata.VerifySignature":
+				vs = &c20Op{s, k, g}
+			case "iface:in_toto.Metadata.Sign":
+				sg = &c20Op{s, k, g}
+			case "iface:in_toto.Metadata.Dump":
+				dp = &c20Op{s, k, g}
+			}
 		}
+	}
+	scan(f, nil)
+	for _, via := range allCalls(f) {
+		h := via.Common().StaticCallee()
+		if h == nil || h.Blocks == nil || h.Pkg != f.Pkg || h == f || h.Parent() != nil || (h.Object() != nil && h.Object().Exported()) || !hasErrResult(via) {
+			continue
+		}
+		scan(h, via)
 	}
 	if vs == nil || sg == nil || dp == nil {
 		c.bad(R, fn, "VerifySignature / Sign / Dump", f.Pos(), "sign does not offer verify, sign and dump")
 		return
+	}
+	// an operation done in a helper counts only when the helper's error is what cmd.sign returns (or fails on)
+	propagated := func(o *c20Op) bool {
+		if o.site == o.inner {
+			return true
+		}
+		if e := errResult(o.site); e != nil {
+			for _, br := range errBranches(e) {
+				if c.failing(br.NonNil) {
+					return true
+				}
+			}
+		}
+		for _, r := range returnsOf(f) {
+			if pc, _ := producer(r.Results[0], r); pc == o.site && r.Block() == o.site.Block() {
+				return true
+			}
+		}
+		return false
 	}
 	// verify flag
 	var vf ssa.Value
@@ -894,35 +947,50 @@ func ruleC20_5(c *Ctx) {
 			}
 		}
 	}
-	okV := vf != nil && c.condAt(vf, true, vs.Block()) && c.condAt(vf, false, sg.Block()) && c.condAt(vf, false, dp.Block())
+	okV := vf != nil && c.condAt(vf, true, vs.site.Block()) && c.condAt(vf, false, sg.site.Block()) && c.condAt(vf, false, dp.site.Block())
 	c.check(okV, R, fn, "--verify verifies and writes nothing; otherwise sign and dump", f.Pos(), "VerifySignature under verifyFile, Sign/Dump under !verifyFile", "the --verify switch does not separate verification from signing and writing")
 	okVE := false
-	if e := errResult(vs); e != nil {
+	if e := errResult(vs.inner); e != nil {
 		for _, br := range errBranches(e) {
 			okVE = okVE || c.failing(br.NonNil)
 		}
 	}
-	c.check(okVE, R, fn, "a failed verification is an error", vs.Pos(), "non-nil side fails", "sign --verify succeeds although the signature does not verify")
-	same := org(vs.Common().Value) == org(sg.Common().Value) && org(sg.Common().Value) == org(dp.Common().Value) && org(vs.Common().Value) == "in_toto.LoadMetadata(global(cmd.layoutPath))#0"
+	c.check(okVE && propagated(vs), R, fn, "a failed verification is an error", vs.inner.Pos(), "non-nil side fails", "sign --verify succeeds although the signature does not verify")
+	const loaded = "in_toto.LoadMetadata(global(cmd.layoutPath))#0"
+	same := vs.outer(vs.inner.Common().Value) == loaded && sg.outer(sg.inner.Common().Value) == loaded && dp.outer(dp.inner.Common().Value) == loaded
 	c.check(same, R, fn, "the loaded --file is what is verified / signed / dumped", f.Pos(), "LoadMetadata(layoutPath)", "verify, sign and dump do not operate on the loaded --file")
-	c.check(c.okCallAt(sg, dp.Block()) && org(dp.Common().Args[0]) == c.fv("output", "signCmd"), R, fn, "dump to --output only after a successful Sign", dp.Pos(), "Dump(outputPath) dominated by Sign's nil edge", "the file is written without a successful Sign, or not to --output")
+	okOrder := false
+	if sg.g == dp.g {
+		okOrder = c.okCallAt(sg.inner, dp.inner.Block())
+	} else if sg.site != sg.inner {
+		okOrder = c.helperGuarantees(sg.g, sg.inner) && c.okCallAt(sg.site, dp.site.Block())
+	} else {
+		okOrder = c.okCallAt(sg.inner, dp.site.Block())
+	}
+	c.check(okOrder && propagated(sg) && dp.outer(dp.inner.Common().Args[0]) == c.fv("output", "signCmd"), R, fn, "dump to --output only after a successful Sign", dp.inner.Pos(), "Dump(outputPath) dominated by Sign's nil edge", "the file is written without a successful Sign, or not to --output")
+	// the default of --output: set in cmd.sign before the (call that leads to the) dump, or in the dump's own frame
 	okDef := false
-	for _, b := range f.Blocks {
-		for _, in := range b.Instrs {
-			if st, ok := in.(*ssa.Store); ok && org(st.Addr) == c.fv("output", "signCmd") && org(st.Val) == c.fv("file", "signCmd") {
-				for _, lc := range lenCompares(f, func(v ssa.Value) bool { return org(v) == c.fv("output", "signCmd") }) {
-					if c.condAt(lc.bo, evalCmp(lc.op, 0, lc.k), st.Block()) && instrDominates(lc.bo, dp) {
-						okDef = true
+	for _, fr := range []struct {
+		g  *ssa.Function
+		at ssa.CallInstruction
+	}{{f, dp.site}, {dp.g, dp.inner}} {
+		for _, b := range fr.g.Blocks {
+			for _, in := range b.Instrs {
+				if st, ok := in.(*ssa.Store); ok && org(st.Addr) == c.fv("output", "signCmd") && org(st.Val) == c.fv("file", "signCmd") {
+					for _, lc := range lenCompares(fr.g, func(v ssa.Value) bool { return org(v) == c.fv("output", "signCmd") }) {
+						if c.condAt(lc.bo, evalCmp(lc.op, 0, lc.k), st.Block()) && instrDominates(lc.bo, fr.at) {
+							okDef = true
+						}
 					}
 				}
 			}
 		}
 	}
 	c.check(okDef, R, fn, "without --output the input file is overwritten", f.Pos(), "outputPath = layoutPath when empty", "the default output path is not the input path")
-	for _, r := range returnsOf(f) {
-		if r.Block() == dp.Block() {
+	for _, r := range returnsOf(dp.g) {
+		if r.Block() == dp.inner.Block() {
 			pc, _ := producer(r.Results[0], r)
-			c.check(pc == dp, R, fn, "Dump's error is the result", instrPos(r), "return layoutEnv.Dump(outputPath)", "a write error is not returned")
+			c.check(pc == dp.inner && propagated(dp), R, fn, "Dump's error is the result", instrPos(r), "return layoutEnv.Dump(outputPath)", "a write error is not returned")
 		}
 	}
 }
